@@ -305,7 +305,7 @@ func c01Readers(c *core.Ctx) {
 	var s omniparser.Schema
 	var input []byte
 	var schema []byte
-	mode := r.Pick(gen.ModeCopy, gen.ModeCopy, gen.ModeFailing, gen.ModePass, gen.ModeFilter, gen.ModeRich)
+	mode := r.Pick(gen.ModeCopy, gen.ModeCopy, gen.ModeFailing, gen.ModePass, gen.ModeFilter, gen.ModeRich, gen.ModeFloat)
 	var err error
 	if format == "jsonlog" {
 		schema = []byte(`{"parser_settings":{"version":"omni.2.1","file_format_type":"jsonlog"},"transform_declarations":{"FINAL_OUTPUT":{"xpath":".[sev!='skip']","object":{"id":{"xpath":"id"},"n":{"xpath":"n","type":"int"}}}}}`)
